@@ -5,7 +5,7 @@
 From Coq Require Import ZArith List Bool NArith.
 Import ListNotations.
 Require Import PV.Core.Obj PV.Core.Val PV.Core.Subst.
-Require Import PV.Proofs.Dedup PV.Proofs.Unite PV.Proofs.UniteLaws PV.Proofs.C14Witness.
+Require Import PV.Proofs.Dedup PV.Proofs.Unite PV.Proofs.UniteLaws PV.Proofs.SubstLaws PV.Proofs.C14Witness.
 
 (* the result of unite_values never nests unions (for any key identification) *)
 Theorem C14_unite_no_nesting : forall E l,
@@ -48,6 +48,38 @@ Theorem C14_unite_comm_partial : forall n a b,
   veq_f (S n) (unite_f n [a; b]) (unite_f n [b; a]) = true.
 Proof. exact unite_comm. Qed.
 Print Assumptions C14_unite_comm_partial.
+
+(* associativity up to ==, under the same kind of guard (Any[unreachable] added: it is what
+   uniting only-unreachable operands returns) *)
+Theorem C14_unite_assoc_partial : forall n a b c,
+  flat a = true -> flat b = true -> flat c = true ->
+  fits n (VAnyUnreachable :: flatten a ++ flatten b ++ flatten c) = true ->
+  equiv_onb (E_f n) (VAnyUnreachable :: flatten a ++ flatten b ++ flatten c) = true ->
+  veq_f (S n) (unite_f n [unite_f n [a; b]; c]) (unite_f n [a; unite_f n [b; c]]) = true.
+Proof. exact unite_assoc. Qed.
+Print Assumptions C14_unite_assoc_partial.
+
+Example C14_assoc_example :
+  let a := VUnion [w_int; w_list1] in let b := w_tup (VUnion [w_int; w_str]) in let c := VUnion [w_str; w_int; VAnyUnreachable] in
+  flat a = true /\ flat b = true /\ flat c = true /\
+  fits 10 (VAnyUnreachable :: flatten a ++ flatten b ++ flatten c) = true /\
+  equiv_onb (E_f 10) (VAnyUnreachable :: flatten a ++ flatten b ++ flatten c) = true /\
+  unite_f 10 [unite_f 10 [a; b]; c] = VUnion [w_int; w_list1; w_tup (VUnion [w_int; w_str]); w_str].
+Proof. exact assoc_example. Qed.
+Print Assumptions C14_assoc_example.
+
+(* substituting type variables is the identity on values without type variables (whose
+   derived fields and unions are in the form the constructors / unite_values produce) *)
+Theorem C14_subst_id_on_closed : forall n m v, closed v = true -> canonical n v -> subst_f n m v = v.
+Proof. exact subst_id_on_closed. Qed.
+Print Assumptions C14_subst_id_on_closed.
+
+Example C14_subst_closed_example :
+  closed w_closed = true /\ canonical 10 w_closed /\
+  subst_f 10 [(1%N, w_float)] w_closed = w_closed /\
+  subst_f 10 [(1%N, w_float)] (VNode (TGeneric c_list) [VNode (TTypeVar 1 false) []]) = VNode (TGeneric c_list) [w_float].
+Proof. exact subst_closed_example. Qed.
+Print Assumptions C14_subst_closed_example.
 
 Theorem C14_unite_comm_refuted : ~ unite_comm_full_statement.
 Proof. exact unite_comm_refuted. Qed.
